@@ -346,7 +346,10 @@ void orc_c19_delivery(Delivery &d) {
             if (e.sender) VIOL("C19", "C19:tick-with-sender", "a tick notification names a sender");
             if (W->ctx_tick_ns == 0 && W->ctx_tick_set_gseq < d.gseq && r.tick_times.empty() && !W->c19_tick_ever) VIOL("C19", "C19:tick-without-tick", "tick notification although no tick is configured");
             r.tick_times.push_back(R->now);
-            uint64_t period = W->c19_min_tick_ns ? W->c19_min_tick_ns : 1;
+            // the period in force: a tick emitted after a re-configuration obeys the new period (the window was restarted then; ticks
+            // emitted before it have been handed over already by a loop that polls promptly, see 'steady')
+            uint64_t period = W->ctx_tick_ns;
+            if (!period) { r.tick_times.clear(); continue; }
             // arrivals bunch up when the recipient was not RUNNING, batches its events, or the simulated node is slower than the tick:
             // the bound is asserted for a recipient RUNNING throughout, ticks of >= 1 ms, and seam calls cheaper than the tick
             bool steady = !W->loops.empty() && W->loops.back().blocking && R->cfg.subset_p == 0 &&   // a loop that polls promptly and is told about every ready source
